@@ -10,6 +10,7 @@ from pyvc.dsl import *  # noqa
 
 try:  # native side only: `reach` is evaluated by an independent breadth-first search
     from pyvc.dsl import UF_NATIVE
+    from workflows.events import HumanResponseEvent, InputRequiredEvent, StopEvent  # noqa
 
     def _reach_native(seeds, adjacency, x):
         seen, todo = set(), list(seeds)
@@ -84,3 +85,128 @@ class Dfs:
 
     def ensures_only_reachable(old, seeds, adjacency, result):
         return forall_of("GraphNode", lambda x: not (x in result) or uf("reach", "bool", seeds, adjacency, x))
+
+
+def in_list(xs, x):
+    return exists(len(xs), lambda j: xs[j] == x)
+
+
+def rev_edge(incoming: "dict[GraphNode, list[GraphNode]]", w: "GraphNode", v: "GraphNode") -> "bool":
+    """the edge v -> w is recorded backwards: v occurs in incoming[w]"""
+    return w in incoming and exists(len(incoming[w]), lambda j: incoming[w][j] == v)
+
+
+def has_edge(adj: "dict[GraphNode, list[GraphNode]]", a: "GraphNode", b: "GraphNode") -> "bool":
+    """b occurs in adj[a]"""
+    return a in adj and exists(len(adj[a]), lambda j: adj[a][j] == b)
+
+
+def step_edges_recorded(cfg, n, outgoing, event_types, step_names):
+    return (
+        n in step_names
+        and forall(len(cfg.accepted_events), lambda j: has_edge(outgoing, cfg.accepted_events[j], n) and cfg.accepted_events[j] in event_types)
+        and forall(len(cfg.return_types), lambda j: cfg.return_types[j] is type(None) or (
+            has_edge(outgoing, n, cfg.return_types[j]) and cfg.return_types[j] in event_types))
+    )
+
+
+@contract("workflows.representation.validate.build_step_graph", variant="reachability")
+class BuildStepGraphReach:
+    properties = ["C23"]
+    raises = []
+    notes = ("a second contract on build_step_graph (the plain one only names its result for validate_graph): what the "
+             "two reachability sets of the REAL graph are, proved from the `_dfs` contract")
+
+    def requires(steps, start_event_class, catch_error_steps):
+        return True
+
+    # loops 1-3 build outgoing / event_types / step_names: every step handled so far is a step name, each of its
+    # accepted event types has an edge to it, it has an edge to each of its return types (None excepted), and all
+    # those types are event types of the graph
+    def inv_1():
+        return (
+            forall_keys(steps, lambda n: not (dpos(steps, n) < _i) or step_edges_recorded(steps[n], n, outgoing, event_types, step_names))
+            and forall_of("str", lambda n: not (n in step_names) or (n in steps and dpos(steps, n) < _i))
+        )
+
+    def inv_2():
+        return (
+            forall_keys(steps, lambda n: not (dpos(steps, n) < _i1) or step_edges_recorded(steps[n], n, outgoing, event_types, step_names))
+            and forall_of("str", lambda n: not (n in step_names) or (n in steps and dpos(steps, n) <= _i1))
+            and name in step_names
+            and forall(_i, lambda j: has_edge(outgoing, cfg.accepted_events[j], name) and cfg.accepted_events[j] in event_types)
+        )
+
+    def inv_3():
+        return (
+            forall_keys(steps, lambda n: not (dpos(steps, n) < _i1) or step_edges_recorded(steps[n], n, outgoing, event_types, step_names))
+            and forall_of("str", lambda n: not (n in step_names) or (n in steps and dpos(steps, n) <= _i1))
+            and name in step_names
+            and forall(len(cfg.accepted_events), lambda j: has_edge(outgoing, cfg.accepted_events[j], name) and cfg.accepted_events[j] in event_types)
+            and forall(_i, lambda j: cfg.return_types[j] is type(None) or (
+                has_edge(outgoing, name, cfg.return_types[j]) and cfg.return_types[j] in event_types))
+        )
+
+    # loop 4: for ev_type in event_types (human-response seeds)
+    def inv_4():
+        return (
+            len(seeds) >= 1 and seeds[0] == start_event_class
+            and forall_of("type", lambda t: not (t in event_types and dpos(event_types, t) < _i
+                                                 and issubclass(t, HumanResponseEvent)) or in_list(seeds, t))
+        )
+
+    # loop 5: for handler_name in catch_error_steps or []
+    def inv_5():
+        return (
+            len(seeds) >= 1 and seeds[0] == start_event_class
+            and forall_of("type", lambda t: not (t in event_types and issubclass(t, HumanResponseEvent))
+                          or in_list(seeds, t))
+            and (catch_error_steps is None
+                 or forall(_i, lambda j: in_list(seeds, opt_val(catch_error_steps)[j])))
+        )
+
+    # loops 6-7 build the reversed adjacency: every edge v -> outgoing[v][k] handled so far is recorded backwards
+    def inv_6():
+        return forall_keys(outgoing, lambda v: not (dpos(outgoing, v) < _i) or forall(
+            len(outgoing[v]), lambda k: rev_edge(incoming, outgoing[v][k], v)))
+
+    def inv_7():
+        return (
+            forall_keys(outgoing, lambda v: not (dpos(outgoing, v) < _i6) or forall(
+                len(outgoing[v]), lambda k: rev_edge(incoming, outgoing[v][k], v)))
+            and forall(_i, lambda k: rev_edge(incoming, targets[k], source))
+        )
+
+    def ensures_forward_contains_start_and_is_closed(old, steps, start_event_class, catch_error_steps, result):
+        return (
+            start_event_class in result.forward_reachable
+            and forall_keys(result.outgoing, lambda v: not (v in result.forward_reachable) or forall(
+                len(result.outgoing[v]), lambda k: result.outgoing[v][k] in result.forward_reachable))
+        )
+
+    def ensures_forward_seeds(old, steps, start_event_class, catch_error_steps, result):
+        # every human-response event type of the graph and every catch_error handler step is a forward seed
+        return (
+            forall_of("type", lambda t: not (t in result.event_types and issubclass(t, HumanResponseEvent))
+                      or t in result.forward_reachable)
+            and (catch_error_steps is None or forall(
+                len(opt_val(catch_error_steps)), lambda j: opt_val(catch_error_steps)[j] in result.forward_reachable))
+        )
+
+    def ensures_reverse_contains_outputs_and_is_closed_backwards(old, steps, start_event_class, catch_error_steps, result):
+        # every output event type of the graph is a reverse seed, and whoever has an edge INTO the set is in the set
+        return (
+            forall_of("type", lambda t: not (t in result.event_types and issubclass(t, (StopEvent, InputRequiredEvent)))
+                      or t in result.reverse_reachable)
+            and forall_keys(result.outgoing, lambda v: forall(
+                len(result.outgoing[v]), lambda k: not (result.outgoing[v][k] in result.reverse_reachable)
+                or v in result.reverse_reachable))
+        )
+
+    def ensures_graph_has_every_step_edge(old, steps, start_event_class, catch_error_steps, result):
+        # the graph the two searches run on: the step names are exactly the steps; every accepted event type has an
+        # edge to its step, every step an edge to each of its return types (None excepted); all of them are event types
+        return (
+            forall_keys(steps, lambda n: step_edges_recorded(steps[n], n, result.outgoing, result.event_types, result.step_names))
+            and forall_of("str", lambda n: not (n in result.step_names) or n in steps)
+        )
